@@ -75,6 +75,7 @@ class Improve(Suite):
 
 
 class Bio(Suite):
+    scribbled_rate = 0.1     # share of the cases where the caller scribbled on what the read accessors returned (algos.scribble)
     seasoned_rate = 0.12     # share of the cases run on algorithm objects that have served before (algos.seasoned)
     names_rate, past_rate = 0.06, 0.06     # hostile element names / datasets with a past (gen.decorate_cases)
     name = "bioconsert"
